@@ -364,6 +364,16 @@ def main(tier):
         r2['violations'] = []
         agg.add(r2)
         html_violations.extend(vs)
+    if not html_violations:
+        # validation of the replay itself: on a tree where the post-conditions hold it must not "confirm"
+        pv = dict(role='sample', summary='passing path')
+        mdhtml.confirm_html(binary, PROP, pv, 90)
+        if pv.get('confirmed'):
+            msg = 'HTML-in-Markdown replay disagrees with the real binary on a passing path: observed %s expected %s' % (pv.get('observed'), pv.get('expected'))
+            agg.validation_failures.append(msg)
+            agg.engine_errors.append({'engine_error': 'translator validation: ' + msg})
+        else:
+            agg.validated += 1
     by_role = {}
     for v in agg.violations:
         by_role.setdefault((v['kind'], v['role']), []).append(v)
